@@ -99,3 +99,64 @@ impl ComputedAuthorizationItem {
 pub open spec fn is_allowed_spec(rules: ComputedAuthorizationItem, url: http::Uri, claims: Claims) -> bool {
     rules.decision(url, claims)
 }
+
+// =====================================================================================================================
+// The decision over the rule DOCUMENT the host delivers (AuthorizationItem), written from the statement, and the
+// representation relation between the document and the name-indexed tables the agent computes from it.
+// A name that occurs more than once inside a section denotes its LAST occurrence (corner case the statement does not
+// settle; lemma_doc_item_any shows that for documents with distinct names this is simply "the item with that name").
+// =====================================================================================================================
+pub open spec fn mode_of(m: Seq<char>) -> AuthorizationMode {
+    if lower(m) == "audit"@ { AuthorizationMode::Audit } else if lower(m) == "enforce"@ { AuthorizationMode::Enforce } else { AuthorizationMode::Disabled }
+}
+pub struct DocLists { pub privileges: Seq<Privilege>, pub identities: Seq<Identity>, pub roles: Seq<Role>, pub assignments: Seq<RoleAssignment> }
+// "If any of the four sections is missing the rule lists are empty."
+pub open spec fn doc_lists(d: AuthorizationItem) -> DocLists {
+    match d.rules {
+        Some(r) => if r.privileges is Some && r.identities is Some && r.roles is Some && r.roleAssignments is Some {
+                DocLists { privileges: r.privileges->0@, identities: r.identities->0@, roles: r.roles->0@, assignments: r.roleAssignments->0@ }
+            } else { DocLists { privileges: seq![], identities: seq![], roles: seq![], assignments: seq![] } },
+        None => DocLists { privileges: seq![], identities: seq![], roles: seq![], assignments: seq![] },
+    }
+}
+// index of the last item named `n`, or -1
+pub open spec fn last_priv(s: Seq<Privilege>, n: String) -> int decreases s.len() {
+    if s.len() == 0 { -1 } else if s.last().name == n { s.len() - 1 } else { last_priv(s.drop_last(), n) }
+}
+pub open spec fn last_ident(s: Seq<Identity>, n: String) -> int decreases s.len() {
+    if s.len() == 0 { -1 } else if s.last().name == n { s.len() - 1 } else { last_ident(s.drop_last(), n) }
+}
+pub open spec fn last_role(s: Seq<Role>, n: String) -> int decreases s.len() {
+    if s.len() == 0 { -1 } else if s.last().name == n { s.len() - 1 } else { last_role(s.drop_last(), n) }
+}
+// privilege named pn is granted to identity named idn: both defined, and some role assignment names a defined role that
+// lists pn and lists idn among its identities
+pub open spec fn granted_doc(l: DocLists, pn: String, idn: String) -> bool {
+    &&& last_priv(l.privileges, pn) >= 0
+    &&& last_ident(l.identities, idn) >= 0
+    &&& exists|a: int| 0 <= a < l.assignments.len() && #[trigger] assignment_grants(l, l.assignments[a], pn, idn)
+}
+pub open spec fn assignment_grants(l: DocLists, ra: RoleAssignment, pn: String, idn: String) -> bool {
+    let r = last_role(l.roles, ra.role);
+    r >= 0 && l.roles[r].privileges@.contains(pn) && ra.identities@.contains(idn)
+}
+pub open spec fn decision_doc(d: AuthorizationItem, u: http::Uri, c: Claims) -> bool {
+    let l = doc_lists(d);
+    if mode_of(d.mode@) == AuthorizationMode::Disabled { true }
+    else if exists|pn: String, idn: String| #[trigger] granted_doc(l, pn, idn)
+                && pmatch(l.privileges[last_priv(l.privileges, pn)], u) && imatch(l.identities[last_ident(l.identities, idn)], c) { true }
+    else if exists|pn: String| last_priv(l.privileges, pn) >= 0 && pmatch(#[trigger] l.privileges[last_priv(l.privileges, pn)], u) { false }
+    else { lower(d.defaultAccess@) == "allow"@ }
+}
+// the tables represent the document
+pub open spec fn repr(d: AuthorizationItem, c: ComputedAuthorizationItem) -> bool {
+    let l = doc_lists(d);
+    &&& c.mode == mode_of(d.mode@)
+    &&& c.defaultAllowed == (lower(d.defaultAccess@) == "allow"@)
+    &&& c.id == d.id
+    &&& forall|k: String| #[trigger] c.privileges@.contains_key(k) <==> last_priv(l.privileges, k) >= 0
+    &&& forall|k: String| c.privileges@.contains_key(k) ==> #[trigger] c.privileges@[k] == l.privileges[last_priv(l.privileges, k)]
+    &&& forall|k: String| #[trigger] c.identities@.contains_key(k) <==> last_ident(l.identities, k) >= 0
+    &&& forall|k: String| c.identities@.contains_key(k) ==> #[trigger] c.identities@[k] == l.identities[last_ident(l.identities, k)]
+    &&& forall|pn: String, idn: String| (c.privilegeAssignments@.contains_key(pn) && #[trigger] c.privilegeAssignments@[pn]@.contains(idn)) <==> granted_doc(l, pn, idn)
+}
